@@ -58,11 +58,19 @@ def parseModifiers (elems : List Node) : List String :=
     | .mk .arg _ [.mk .str (s :: _) _] => some s
     | _ => none)
 
+/-- `swc_ecma_utils::is_valid_prop_ident` on ASCII text (non-ASCII characters are taken as identifier characters) -/
+def isValidPropIdent (s : String) : Bool :=
+  let start (c : Char) : Bool := c.isAlpha || c == '_' || c == '$' || c.toNat ≥ 128
+  let cont (c : Char) : Bool := c.isAlphanum || c == '_' || c == '$' || c.toNat ≥ 128
+  match s.toList with
+  | [] => false
+  | c :: cs => start c && cs.all cont
+
 /-- `transform_modifiers` -/
 def transformModifiers (mods : List String) (quoteProp : Bool) : Option Node :=
   if mods.isEmpty then none
   else some (nObject (mods.map fun m =>
-    nKV (if quoteProp then nStr m else nIdentName m) (nBool true)))
+    nKV (if quoteProp || !isValidPropIdent m then nStr m else nIdentName m) (nBool true)))
 
 /-- the expression inside `{…}` of an attribute value, if it is a non-empty expression container -/
 def containerExpr : Node → Option Node
@@ -94,9 +102,8 @@ def dirNameParts (a : AttrName) : String × Option String × List String :=
   | .bad => ("", none, [])
 
 def vHtmlOrText (what : String) (value : Node) (st : St) : Node × St :=
+  let bad := (nBool true, st.err ("Error: You have to use JSX Expression inside your `v-" ++ what ++ "`."))
   match value with
-  | .mk .none _ _ =>
-    (nBool true, st.err ("Error: You have to use JSX Expression inside your `v-" ++ what ++ "`."))
   | .mk .str as ks => (.mk .str as ks, st)
   | v =>
     match containerExpr v with
@@ -107,7 +114,7 @@ def vHtmlOrText (what : String) (value : Node) (st : St) : Node × St :=
         | some first => (first, st)
         | none => (e, st)
       | none => (e, st)
-    | none => (nBool true, st.panic "unreachable: v-html/v-text value")
+    | none => bad        -- no value, `{}`, or an element / fragment as the value
 
 def parseVModel (value : Node) (isComponent : Bool) (argument : Option Node) (rest : List String)
     (st : St) : Dir × St :=
@@ -117,21 +124,24 @@ def parseVModel (value : Node) (isComponent : Bool) (argument : Option Node) (re
     | none => (nEmptyIdent, st.err "Error: You have to use JSX Expression inside your `v-model`.")
   let nullArg (a : Option Node) : Option Node :=
     if isComponent && a.isNone then some nNull else a
-  let (value, argument, modifiers) : Node × Option Node × Option (List String) :=
+  let (st, value, argument, modifiers) : St × Node × Option Node × Option (List String) :=
     match arrayElems attrValue with
     | some elems =>
-      let v := (plainElem elems 0).getD nEmptyIdent
+      let (v, st) : Node × St :=
+        match plainElem elems 0 with
+        | some v => (v, st)
+        | none => (nEmptyIdent, st.err "Error: The first element of the `v-model` array must be the bound expression.")
       match plainElem elems 1 with
       | some second =>
         match arrayElems second with
-        | some mods => (v, nullArg argument, some (parseModifiers mods))
+        | some mods => (st, v, nullArg argument, some (parseModifiers mods))
         | none =>
           let argument := if argument.isNone then some second else argument
           match (plainElem elems 2).bind arrayElems with
-          | some mods => (v, argument, some (parseModifiers mods))
-          | none => (v, argument, none)
-      | none => (v, nullArg argument, some (setOfList rest))
-    | none => (attrValue, argument, some (setOfList rest))
+          | some mods => (st, v, argument, some (parseModifiers mods))
+          | none => (st, v, argument, none)
+      | none => (st, v, nullArg argument, some (setOfList rest))
+    | none => (st, attrValue, argument, some (setOfList rest))
   let nonEmpty := match modifiers with | some m => !m.isEmpty | none => false
   let transformed :=
     if !isComponent && nonEmpty then (match argument with | some a => some a | none => some nVoid0)
@@ -165,7 +175,7 @@ def parseDirective (name : AttrName) (value : Node) (isComponent : Bool) (st : S
       | some e =>
         match arrayElems e with
         | some elems =>
-          let v := (plainElem elems 0).getD nEmptyIdent
+          let v := (plainElem elems 0).getD nVoid0
           match plainElem elems 1 with
           | some second =>
             match arrayElems second with
@@ -180,7 +190,7 @@ def parseDirective (name : AttrName) (value : Node) (isComponent : Bool) (st : S
       | none =>
         match value with
         | .mk .str as ks => (.mk .str as ks, argument, some (setOfList rest))     -- `v-foo="bar"`
-        | _ => (nEmptyIdent, argument, some (setOfList rest))
+        | _ => (nVoid0, argument, some (setOfList rest))                          -- no value: `undefined`
     let nonEmpty := match modifiers with | some m => !m.isEmpty | none => false
     let argument :=
       if nonEmpty then (match argument with | some a => some a | none => some nVoid0) else argument
